@@ -160,6 +160,7 @@ Section Frames.
     destruct (negb (is_file_exists (sr_err r))); [nope|].
     destruct (Nat.eqb_spec p c) as [|Hpc]; [nope|].
     destruct (negb (perm_on (f_heap s) p OpenWrite (v_user v))); [nope|].
+    destruct (sticky_refuses (f_heap s) p c (v_user v)); [nope|].
     assert (G : children (f_heap s) c = [] ->
                 frame (f_heap s) (delete_node (remove_child (f_heap s) p (pi_part (sr_pi r))) c) [(p, pi_part (sr_pi r))] [c]).
     { intros Hc. eapply frame_weaken; [eapply frame_trans; [apply frame_remove_child | apply frame_delete_node] | |].
